@@ -13,6 +13,11 @@ func genC02(t *rapid.T) Case {
 	c.Keys = GenKeys(t, 3, 5, false)
 	c.Ops = GenTxOps(t, TxGenOpts{MinOps: 5, MaxOps: 60, Weights: map[string]int{
 		"begin": 5, "set": 10, "del": 3, "get": 2, "keys": 1, "commit": 4, "rollback": 2, "gc": 3}})
+	if rapid.IntRange(0, 2).Draw(t, "withScenario") == 0 {
+		sc := GenConflictScenario(t)
+		at := rapid.IntRange(0, len(c.Ops)).Draw(t, "scAt")
+		c.Ops = append(c.Ops[:at:at], append(sc, c.Ops[at:]...)...)
+	}
 	return c
 }
 
@@ -21,8 +26,14 @@ func TestC02(t *testing.T) { ev.Check(t, "C02", "seq", genC02, Exec) }
 func genC03(t *rapid.T) Case {
 	c := Case{Prof: "c03", Roots: 1, MaxDir: 100}
 	c.Keys = GenKeys(t, 2, 4, false)
-	c.Ops = GenTxOps(t, TxGenOpts{MinOps: 5, MaxOps: 50, Weights: map[string]int{
+	c.Ops = GenTxOps(t, TxGenOpts{MinOps: 5, MaxOps: 40, Weights: map[string]int{
 		"begin": 6, "set": 12, "del": 4, "commit": 7, "rollback": 2, "gc": 1}})
+	// scripted conflict fragments before, between and after the random operations
+	for n := rapid.IntRange(0, 3).Draw(t, "scenarios"); n > 0; n-- {
+		sc := GenConflictScenario(t)
+		at := rapid.IntRange(0, len(c.Ops)).Draw(t, "scAt")
+		c.Ops = append(c.Ops[:at:at], append(sc, c.Ops[at:]...)...)
+	}
 	return c
 }
 
